@@ -49,6 +49,15 @@ def generate(rng):
         derivs.append(l1)
         hedge, H = ["p0", "d1"], 2
     ck = rng.choice(CRITS)
+    if d["_k"] > 25:
+        # hundreds of steps: every |trade| of a positive cost rate and every |.| / worst-path selection of a piecewise-linear
+        # criterion is a kink, hundreds of them - no difference quotient sees the gradient between them. The long horizons are
+        # there for the recurrence (back-propagation through hundreds of prev_hedge links): smooth criterion, no costs.
+        ck = rng.choice(["EntropicRiskMeasure", "EntropicLoss", "QuadraticCVaR", "MSELoss", "OCE"])
+        prim["params"]["cost"] = 0.0
+        for x_ in derivs:
+            if x_.get("listed"):
+                x_["listed"]["cost"] = 0.0
     crit = gen_criterion(rng, "c0", [ck])
     if ck == "IsoelasticLoss":
         d.setdefault("clauses", []).append({"name": "keep_pl_positive", "kind": "shift", "v": -5.0})
